@@ -235,7 +235,7 @@ def submitSteps (P : Prims) (b : Block) : List Step :=
   let hash := P.hdrHash b.hdr.u
   let h := b.hdr.u.height
   let txHashes := b.txs.map P.txHash
-  [ .guard "submitBlock: blockRoot != block.Header.BlockRoot"
+  [ .guard "block.Header.Height != 0 && blockRoot != block.Header.BlockRoot"
       (fun l => if h ≠ 0 ∧ P.rootWith l.mem.blockLeaves b.hdr.u.txRoot ≠ b.hdr.u.blockRoot then some .blockRoot else none),
     .effect "blockStore.NewBatch" (fun l => { l with mem := { l.mem with bBlock := [] } }),
     .effect "stateStore.NewBatch" (fun l => { l with mem := { l.mem with bState := [] } }),
@@ -283,11 +283,11 @@ def heightGuards (v : Variant) (b : Block) : List Step :=
 def addBlockSteps (v : Variant) (P : Prims) (b : Block) (sr : Hash) : List Step :=
   heightGuards v b
   ++ verifyHeaderSteps P b.hdr
-  ++ [ .stop "saveBlock: blockHeight <= currBlockHeight" (fun l => decide (0 < b.hdr.u.height ∧ b.hdr.u.height ≤ l.mem.curHeight)),
-       .guard "saveBlock: closing" (fun l => if l.mem.closing then some .closing else none),
-       .stop "saveBlock: blockHeight != currBlockHeight+1" (fun l => decide (0 < b.hdr.u.height ∧ b.hdr.u.height ≠ (l.mem.curHeight + 1) % u32)),
-       .guard "saveBlock: executeBlock" (fun l => if (execRes P l b).isNone then some .exec else none),
-       .guard "saveBlock: result.MerkleRoot != stateMerkleRoot"
+  ++ [ .stop "blockHeight > 0 && blockHeight <= this.GetCurrentBlockHeight()" (fun l => decide (0 < b.hdr.u.height ∧ b.hdr.u.height ≤ l.mem.curHeight)),
+       .guard "this.closing" (fun l => if l.mem.closing then some .closing else none),
+       .stop "blockHeight > 0 && blockHeight != (this.GetCurrentBlockHeight()+1)" (fun l => decide (0 < b.hdr.u.height ∧ b.hdr.u.height ≠ (l.mem.curHeight + 1) % u32)),
+       .guard "executeBlock" (fun l => if (execRes P l b).isNone then some .exec else none),
+       .guard "len(block.Transactions) != 0 && result.MerkleRoot != stateMerkleRoot"
          (fun l => match execRes P l b with
            | some (ws, _) => if b.txs ≠ [] ∧ P.stateRootWith l.mem.deltaLeaves ws ≠ sr then some .stateRoot else none
            | none => none) ]
@@ -302,7 +302,7 @@ def submitBlockSteps (v : Variant) (P : Prims) (b : Block) : List Step :=
                 else if b.hdr.u.height ≠ (l.mem.curHeight + 1) % u32 then some .notNext else none),
     .guard "ExecuteBlock: executeBlock"
       (fun l => if b.hdr.u.height ≤ l.mem.curHeight then none else if (execRes P l b).isNone then some .exec else none),
-    .guard "SubmitBlock: closing" (fun l => if l.mem.closing then some .closing else none) ]
+    .guard "this.closing" (fun l => if l.mem.closing then some .closing else none) ]
   ++ heightGuards v b
   ++ verifyHeaderSteps P b.hdr
   ++ submitSteps P b
@@ -318,7 +318,7 @@ def submitBlock (v : Variant) (P : Prims) (b : Block) (l : Ledger) : Outcome × 
 
 /-- `AddHeader` (header sync): next header height, `verifyHeader`, then cache + index -/
 def addHeaderSteps (P : Prims) (h : Hdr) : List Step :=
-  [ .guard "AddHeader: header.Height != nextHeaderHeight"
+  [ .guard "header.Height != nextHeaderHeight"
       (fun l => if h.u.height ≠ ((if l.mem.hdrLast = 0 then l.mem.curHeight else l.mem.hdrLast) + 1) % u32 then some .notNext else none) ]
   ++ verifyHeaderSteps P h
   ++ [ .effect "addHeaderCache" (fun l => { l with mem := { l.mem with hdrCache := (P.hdrHash h.u, h) :: l.mem.hdrCache } }),
